@@ -406,16 +406,20 @@ def _fmt(spec, *names):
     return spec['fmt'] in names
 
 
-def _k_century(spec, f):
-    if not f.klass.endswith('+100y'):
-        return False
+def _time(spec, f):
+    if f.clause == 'r2l-tflag':
+        return K.time_cause(spec, f.klass, 'begin')
     if f.clause == 'r2l-etflag':
-        return K.straddles_2000(K.ends(spec))
-    return f.clause in ('r2l-tflag', 'r2l-derived') and \
-        K.straddles_2000(K.begins(spec))
+        return K.time_cause(spec, f.klass, 'end')
+    if f.clause == 'r2l-derived' and f.klass.endswith('SDATE/+100y'):
+        return K.time_cause(spec, f.klass, 'begin')
+    return None
 
 
-known.register('C09-century', _k_century)
+known.register('C09-century',
+               lambda spec, f: _time(spec, f) == 'century')
+known.register('C09-lateral-etflag-btime',
+               lambda spec, f: _time(spec, f) == 'lateral-etflag-btime')
 known.register('C09-enddate-yearend', lambda spec, f: (
     f.clause in ('w2r-end-times', 'w2r-header-dates') and
     f.klass.endswith('jday+1') and
@@ -424,11 +428,6 @@ known.register('C09-enddate-yearend', lambda spec, f: (
 known.register('C09-uamiv-tstep-midnight', lambda spec, f: (
     f.clause == 'r2l-derived' and f.klass == 'uamiv/TSTEP' and
     K.first_step_wraps_midnight(spec)))
-known.register('C09-lateral-etflag-btime', lambda spec, f: (
-    f.clause == 'r2l-etflag' and _fmt(spec, 'lateral_boundary') and
-    (f.klass.endswith('etime=btime') or
-     (f.klass.endswith('etime=btime,+100y') and
-      K.straddles_2000(K.ends(spec))))))
 known.register('C09-one3d-memmap-1step', lambda spec, f: (
     f.clause == 'r2l-open-raises' and K.single_step(spec) and
     spec['fmt'] in C.ONE3D_VAR and spec.get('reader') == 'memmap' and
